@@ -60,7 +60,6 @@ SURVIVORS = {
  'c16_bool': ('objects.py', "            return bool(self.get_val())", "            return bool(self.astype(int))"),
  'c16_uraw': ('objects.py', "        return np.where(self.val < 0, (1 << self.n_word) + self.val, self.val)", "        return np.where(self.val < 0, (1 << (self.n_word-1)) + self.val, self.val)"),
  # ---- C17 ---------------------------------------------------------------------------
- 'c17_recip': ('objects.py', "                val = val / self.scale", "                val = val * (1 / self.scale)"),
  'c17_upper_sign': ('objects.py', "            self.upper = self.scale * self.upper + self.bias", "            self.upper = abs(self.scale) * self.upper + self.bias"),
  # ---- C18 ---------------------------------------------------------------------------
  'c18_clip_float': ('objects.py', "                val = np.clip(new_val, val_min, val_max)", "                val = np.clip(new_val.astype(float), val_min, val_max).astype(object)"),
@@ -91,6 +90,8 @@ KILLED_BY_SUITE = [
 # Survive the suite but are NOT usable: behaviourally equivalent, or differ only outside
 # the property's stated domain (analysis in DESIGN.md section 6):
 EQUIVALENT_OR_OUT_OF_DOMAIN = [
+ "c17_recip: `val / self.scale` -> `val * (1 / self.scale)`: for every admitted case the exact quotient (v-b)/s is a representable double, and "
+ "fl(x * fl(1/s)) = x/s then (error of fl(1/s) is below half an ulp of the quotient), so the stored codes are identical inside C17's domain",
  "c06_fracloop: `r_i >= 0.0` -> `> 0.0` (loop exits anyway when r_i == 0)",
  "c14_lsh_half: log2(|v|+0.5) -> log2(|v|+0.25) (same ceil for every integer |v| >= 1)",
  "c10_resize_float: resize re-stores the float value (differs only above 53 bits; C10 domain is <= 52)",
